@@ -67,6 +67,7 @@ func (f *Map) Call(s *slip.Scope, args slip.List, depth int) (result slip.Object
 		// TBD expand in the future to support (vector * 3)
 		slip.TypePanic(s, depth, "result-type", ta, "nil", "list", "string", "vector", "octets")
 	}
+	slip.CheckArgCount(s, depth, f, args, 3, -1) // at least one sequence is required
 	fn := args[1]
 	d2 := depth + 1
 	caller := ResolveToCaller(s, fn, d2)
